@@ -331,6 +331,21 @@ class World:
             gateway.start()
         self.settle()
 
+    def start_persistence_only(self):
+        """The application calls start_persistence() on a gateway whose link is already up (it called start() first)."""
+        gateway = self.gateway
+        self.persist_t0 = self.sim.now
+        if is_async(self.flavour):
+            async def _start_persistence():
+                await gateway.start_persistence()
+                self.after_start_persistence = projection(gateway.sensors)
+
+            self.acall(_start_persistence())
+        else:
+            gateway.start_persistence()
+            self.after_start_persistence = projection(gateway.sensors)
+        self.settle()
+
     def stop(self):
         gateway = self.gateway
         if is_async(self.flavour):
